@@ -27,6 +27,10 @@ ENGINES = {
         "src": ["sim/sched.cc", "sim/kernel.cc", "sim/alloc.cc", "sim/seams.cc", "sim/tsanrt.cc"],
         "src_glob": ["engines/core/*.cc"],
     },
+    "kconf": {
+        "lib": [],
+        "src": ["sim/sched.cc", "sim/kernel.cc", "sim/alloc.cc", "sim/tsanrt.cc", "engines/kconf/main.cc"],
+    },
     "simthr": {
         "lib": LIB_CORE + LIB_STRUCTS + LIB_MEM + LIB_THPOOL + LIB_UTILS,
         "src": ["sim/sched.cc", "sim/kernel.cc", "sim/alloc.cc", "sim/seams.cc", "sim/tsanrt.cc"],
